@@ -181,6 +181,75 @@ def run(P, C, tier):
         C.floor("R3", "persist sites", len(ws), 1)
     except mir.MissingAnchor as e:
         C.anchor_missing("R2", "update_data_model", e)
+    # ---- R2 (storage): a version refused when it is stored (index statements, configuration row) must not become the running model
+    try:
+        u = P.body("GraphDatabase::update_data_model::{closure#0}")
+        ws = u.calls_to(r"BufferedDatabaseWriter::write$")
+        w_ok = []
+        for bi, t in ws:
+            re_ = mir.result_edges(u, bi)
+            if re_ is not None:
+                w_ok.append(re_["ok"])
+        stores = []
+        for bi in sorted(u.live_blocks()):
+            for si, st in enumerate(u.blocks[bi]["s"]):
+                if st["lhs"][-1:] == [".data_model"]:
+                    stores.append((bi, st))
+        for n, (bi, st) in enumerate(stores):
+            dom = bool(w_ok) and all(u.dominates(o, bi) for o in w_ok)
+            C.ob("R2", "live-model-assigned-after-storage#%d" % n, dom, "%s:%d" % (u.file, st["at"][0]),
+                 "self.data_model is replaced only on the Ok edge of the storage write: %s%s" % (dom, "" if dom else
+                 " -- a version whose storage fails (e.g. entities `Person` and `person` with the same index: SQLite index names are case-insensitive) is refused and rolled back, yet stays the running model"))
+    except mir.MissingAnchor as e:
+        C.anchor_missing("R2", "update_data_model", e)
+    # ---- R5: a refused version is reported to the caller
+    C.rule("R5", "a refused version is reported: the API method inspects (propagates or returns) the Result carried by the reply of the update request")
+    try:
+        from rules import replies
+        sites = replies.reply_sites(P, lambda b: b.id.endswith("GraphDatabaseService::update_data_model::{closure#0}"))
+        C.floor("R5", "reply of the model update request", len(sites), 1)
+        for n, (b, bi) in enumerate(sites):
+            k = replies.payload_uses(b, bi)
+            C.ob("R5", "refusal-reported#%d" % n, bool(k), b.loc(bi), "the Result<String, Error> answered by the database task is %s" % (", ".join(sorted(k)) if k else
+                 "dropped without being looked at: a refused live update returns Ok with the unchanged model"))
+    except mir.MissingAnchor as e:
+        C.anchor_missing("R5", "GraphDatabaseService::update_data_model", e)
+    # ---- R6: statements compiled against the old model are not reused
+    C.rule("R6", "new fields read as their default and values keep their names after an accepted version: every cache of requests compiled against the model "
+                 "(the LruCache fields of GraphDatabase) is cleared on the accepting path of a model update")
+    try:
+        gd = P.adts.get("database::graph_database::GraphDatabase")
+        caches = [f["name"] for f in gd["variants"][0]["fields"] if "LruCache<" in f["ty"]] if gd else []
+        C.floor("R6", "request caches of GraphDatabase", len(caches), 3)
+        u = P.body("GraphDatabase::update_data_model::{closure#0}")
+        loop_ = P.body("GraphDatabaseService::start::{closure#0}::{closure#0}", required=False) or None
+        cleared = {}
+        for cb, cbi, ct in P.call_sites(r"LruCache.*::clear$"):
+            if cb.blocks[cbi]["cl"]:
+                continue
+            f = field_path(strip_refs(cb.call_args(cbi)[0])).split(".")[-1]
+            cleared.setdefault(f, []).append((cb, cbi))
+        for c in caches:
+            ok = False
+            where = "never cleared"
+            for cb, cbi in cleared.get(c, []):
+                if cb.id == u.id:
+                    # inside the update itself: after acceptance (both updates Ok)
+                    oks_ = [mir.result_edges(u, bi)["ok"] for bi, t in u.calls_to(UPDATES) if mir.result_edges(u, bi)]
+                    if oks_ and all(u.dominates(o, cbi) for o in oks_):
+                        ok, where = True, "in update_data_model after acceptance"
+                else:
+                    # on the Ok arm of the update's result in the request loop: directly, or in a helper called there
+                    sites_ = [(cb, cbi)] + [(hb, hbi) for hb, hbi, ht in P.call_sites(re.escape(mir.short(cb.id)) + "$")]
+                    for hb, hbi in sites_:
+                        for s_, vals, term in hb.guards(hbi, expand_vars=True):
+                            dv = mir.discr_variants(term, vals)
+                            if dv and dv[1] == ["Ok"] and mir.has_call(dv[0], r"GraphDatabase::update_data_model$") is not None:
+                                ok, where = True, "on the Ok arm of update_data_model in %s" % mir.short(hb.id)
+            C.ob("R6", "cache-cleared:%s" % c, ok, u.loc(), "%s: %s%s" % (c, where, "" if ok else
+                 " -- a request text cached before the update keeps running with the old model's statement (old default value, fields added later not default-filled)"))
+    except mir.MissingAnchor as e:
+        C.anchor_missing("R6", "caches", e)
     # ---- R4
     want = {
         "data_model_parser::Entity::update": ["InvalidFieldOrdering", "CannotUpdateFieldType", "MissingDefaultValue", "MissingField"],
